@@ -2,7 +2,7 @@
 import os
 
 from . import core
-from .rules import stdio, cert, mark, exact, optstore, inval, idx, atomic, own, tokens, idxclass, copy, pair, structfree, buf, div, counter, sentinel, appendinit, verdict, basismap, zerotol, escape, lenclass, djsym, ndet, useb4check, norms, opencheck, shell, esolver, errlost, rescan, certdep, neverset, fmt, defaults, scratch, fullscan, slotleak, floatidx, sensemap, trunc, vtypezero, allockind, intdiv, strscan, localfield, rawidx, argcap, staleptr, condalloc, lpstate, vstattype, alphabet, outleak, fieldleak, lenm1, basisdim, dupmark, rowcopy, normlen, logonly, decacc, nzcount, infmap, lognofail, outunset, dupentry
+from .rules import stdio, cert, mark, exact, optstore, inval, idx, atomic, own, tokens, idxclass, copy, pair, structfree, buf, div, counter, sentinel, appendinit, verdict, basismap, zerotol, escape, lenclass, djsym, ndet, useb4check, norms, opencheck, shell, esolver, errlost, rescan, certdep, neverset, fmt, defaults, scratch, fullscan, slotleak, floatidx, sensemap, trunc, vtypezero, allockind, intdiv, strscan, localfield, rawidx, argcap, staleptr, condalloc, lpstate, vstattype, alphabet, outleak, fieldleak, lenm1, basisdim, dupmark, rowcopy, normlen, logonly, decacc, nzcount, infmap, lognofail, outunset, dupentry, digitseen
 from .effects import Effects
 
 FIX = os.path.join(os.path.dirname(os.path.abspath(__file__)), "fixtures")
@@ -431,7 +431,7 @@ PROPS = {
                                                floors=[("exact literal parser reachable from QSread_prob", ["mpq_QSread_prob"], "mpq_EGlpNumReadStrXc", 1),
                                                        ("exact literal parser reachable from ILLget_value", ["mpq_ILLget_value"], "mpq_EGlpNumReadStrXc", 1)]),
                   lambda prog, tier: rescan.run(prog), lambda prog, tier: defaults.run(prog), lambda prog, tier: strscan.run(prog), lambda prog, tier: strscan.run_advance(prog),
-                  lambda prog, tier: rawidx.run(prog)],
+                  lambda prog, tier: rawidx.run(prog), lambda prog, tier: digitseen.run(prog)],
         "technique": "lossy-conversion sink census over the reader call-graph closure of the rational instantiation (type-resolved, after "
                      "preprocessing: the #ifdef between the exact and the double literal reader is resolved as the build resolves it)",
         "explanation": "Decides one structural clause of C10: on every call path from mpq_QSread_prob / mpq_QSget_prob to the stored problem "
@@ -454,7 +454,7 @@ PROPS = {
                   lambda prog, tier: strscan.run(prog), lambda prog, tier: strscan.run_advance(prog),
                   lambda prog, tier: rawidx.run(prog),
                   lambda prog, tier: idx.run(prog),
-                  lambda prog, tier: lenm1.run(prog), lambda prog, tier: decacc.run(prog),
+                  lambda prog, tier: lenm1.run(prog), lambda prog, tier: decacc.run(prog), lambda prog, tier: digitseen.run(prog),
                   lambda prog, tier: fmt.run(prog, scope=lambda f, _r=set(prog.reachable([prog.require_fn(r).key for r in
                                                                                           ("mpq_QSread_prob", "mpq_QSget_prob", "mpq_QSread_basis", "mpq_QSread_and_load_basis")])): f.key in _r, floor=200)],
         "technique": "census and classification of buffer-writing calls in the reader call-graph closures (destination array sizes from the "
@@ -724,7 +724,8 @@ _ADD = {
                            "into the stored problem subscripts raw arrays with raw indices and LP arrays with mapped indices only (a bound or name "
                            "taken from the wrong numbering is the neighbour's as soon as an unused column was dropped).",
             "level_text": " Since session 3 three clauses of the scanner / default-bound semantics are decided structurally (state reset at '/', "
-                          "explicit-versus-default flags, no machine-word accumulation)."},
+                          "explicit-versus-default flags, no machine-word accumulation). (R-DIGITSEEN) the literal scanners (found by shape: a switch over the ten digit characters in a function returning a count) hand back a "
+                           "non-zero count only on paths that executed a digit case."},
     "C11": {"explanation": " (R-STRSCAN) no scan of a line runs past its terminator: a strchr set-membership test of a variable character also "
                            "tests it against NUL, and every loop that walks a char pointer has an exit test that NUL fails (value enumeration of the "
                            "condition for NUL). (R-FMT) no text of the input (a name, a line) is used as a format string on a reader path; "
